@@ -7,18 +7,21 @@ cancellation and BackendWait on the node-wide wait group, one AddBackend per ent
 cancellation changes nothing (action property + no flag left set), a reload goes on only if nothing but backend
 entries differs, no connection entry without a live session, nothing old left when BackendWait returns, after an
 accepted reload exactly the file's backends run, no backend started twice / uncancellable, and (fair configuration)
-every reload ends and the peers are established again.  Three configurations whose violation is EXPECTED document the
-code as found (flags left set by a refused reload; no mutual exclusion of reloads) and the seeded session leak.
+every reload ends and the peers are established again.  Four configurations whose violation is EXPECTED document the
+code as found (flags left set by a refused reload; no mutual exclusion of reloads; the listener leaving the wait group
+before it closes its socket - all three repaired) and the seeded session leak.
 Conformance: harness/cmd/vctl reload replays TLC-exported scenarios (file edits x reloads x mode plain / session held
 mid-establishment / two reloads at once / other sessions asking) on a real mesh of four daemons and compares replies
 and `status`; the hook events of the daemon under test are validated by TLC against specs/ReloadTrace.tla."""
+import concurrent.futures as cf
 import json, os, re
 import vlib
 import vctl_common
 
 PID = "X-RELOAD"
 WITNESSES = ["W_NoRefusedOtherSection", "W_NoMidEstablishment", "W_NoOverlap", "W_NoRefusedRemoved", "W_NoFailAfterCancel", "W_NoSuccessWithChange"]
-EXPECTED = [("Reload_asis_flags.cfg", "AcceptOnlyBackendChanges"), ("Reload_asis_overlap.cfg", "NoDuplicateBackend"), ("Reload_leak.cfg", "NoOldConnAfterWait")]
+EXPECTED = [("Reload_asis_flags.cfg", "AcceptOnlyBackendChanges"), ("Reload_leak.cfg", "NoOldConnAfterWait"), ("Reload_asis_overlap.cfg", "NoDuplicateBackend"),
+            ("Reload_asis_port.cfg", "NoSpuriousStartFailure")]
 
 
 def validate_traces(wd, trace_file):
@@ -41,21 +44,9 @@ def run(tier, seed, replay=None):
     wd = vctl_common.run_dir("X_Reload")
     v = vlib.Verdict(PID, tier, seed)
     quick = tier == "quick"
-    design = [("Reload_quick.cfg", vlib.tlc_must_pass("Reload", "Reload_quick.cfg", wd, workers=6, timeout=900))]
-    scen = os.path.join(design[0][1].dir, "scenarios.ndjson")
+    exp = vlib.tlc_must_pass("Reload", "Reload_export.cfg", wd, workers=1, timeout=600)   # one state: only writes the scenarios
+    scen = os.path.join(exp.dir, "scenarios.ndjson")
     nscen = sum(1 for _ in open(scen))
-    leads, wit = [], []
-    if not replay:
-        design.append(("Reload_two.cfg", vlib.tlc_must_pass("Reload", "Reload_two.cfg", wd, workers=6, timeout=900)))
-        if not quick:
-            design.append(("Reload_full.cfg", vlib.tlc_must_pass("Reload", "Reload_full.cfg", wd, workers=8, timeout=2400)))
-            design.append(("Reload_live.cfg", vlib.tlc_must_pass("Reload", "Reload_live.cfg", wd, workers=6, timeout=2400)))
-        for cfg, inv in EXPECTED:
-            r = vlib.tlc("Reload", cfg, wd, workers=4, timeout=900)
-            if r.violated != inv:
-                raise vlib.Inconclusive("%s: expected a counter-example to %s, got violated=%s exit=%s" % (cfg, inv, r.violated, r.exit))
-            leads.append({"cfg": cfg, "violated": inv})
-        wit = vlib.witnesses("Reload", "Reload_wit.cfg", WITNESSES[:3] if quick else WITNESSES, wd, workers=4, timeout=600)
     vctl = vlib.build_harness("vctl")
     vrd = vlib.build_harness("vrd")
     traces = os.path.join(wd, "trace.ndjson")
@@ -64,8 +55,34 @@ def run(tier, seed, replay=None):
     if replay:
         args += ["-replay", replay]
     else:
-        args += ["-max", "36" if quick else "0"]
-    res = vlib.harness_json(vctl, args, wd, timeout=3000)
+        args += ["-max", "34" if quick else "0"]
+    cfgs = [("Reload_quick.cfg", 4, 900)]
+    expected, witnesses = [], []
+    if not replay:
+        cfgs.append(("Reload_two.cfg", 4, 900))
+        expected = EXPECTED[:2] + EXPECTED[3:] if quick else EXPECTED
+        witnesses = WITNESSES[:3] if quick else WITNESSES
+        if not quick:
+            cfgs += [("Reload_full.cfg", 6, 2400), ("Reload_live.cfg", 4, 2400)]
+
+    def _design(cfg, w, t):
+        return cfg, vlib.tlc_must_pass("Reload", cfg, wd, workers=w, timeout=t)
+
+    def _expected(cfg, inv):
+        r = vlib.tlc("Reload", cfg, wd, workers=2, timeout=900)
+        if r.violated != inv:
+            raise vlib.Inconclusive("%s: expected a counter-example to %s, got violated=%s exit=%s" % (cfg, inv, r.violated, r.exit))
+        return {"cfg": cfg, "violated": inv}
+
+    with cf.ThreadPoolExecutor(max_workers=4) as ex:
+        fh = ex.submit(vlib.harness_json, vctl, args, wd, 3000)
+        fd = [ex.submit(_design, *c) for c in cfgs]
+        fe = [ex.submit(_expected, c, i) for c, i in expected]
+        fw = ex.submit(vlib.witnesses, "Reload", "Reload_wit.cfg", witnesses, wd, 600, 2) if witnesses else None
+        res = fh.result()
+        design = [f.result() for f in fd]
+        leads = [f.result() for f in fe]
+        wit = fw.result() if fw else []
     for viol in res["violations"]:
         v.violation(viol["sig"], viol["what"], viol["replay"])
     lives, nev, diffs = validate_traces(wd, traces)
